@@ -274,10 +274,9 @@ theorem seq_tail_sim (W : World Context) (cfg : Cfg) (fuel : Nat) (sh : SeqShape
         refine ⟨s, buf, ?_, hs, hb⟩
         have heof : decide (last.token = CorePrelude.Go.str "EOF") = (last.token == eofTok) := by
           rw [eofTok_str]; by_cases h : last.token = eofTok <;> simp [h]
-        simp only [seqTail, sequence_parse_k1, eRes_nil, isNil_nil, Bool.not_true, Bool.false_eq_true, if_false, bind_apply, hd0', if_true,
-          ite_apply]
+        -- (the tests on `depth` are decided by omega from `hd0`, whichever way round the source writes them)
         cases hE : (last.token == eofTok) <;>
-          simp [mkS, hlc, hl, hsl, hhd, htok, hint, hh, happ, hnth, heof, hE]
+          core_simp [seqTail, sequence_parse_k1, mkS, hlc, hl, hsl, hhd, htok, hint, hh, happ, hnth, heof, hE]
       · have hd0' : depth = 0 := by omega
         subst hd0'
         have hn : nodes = [] := List.length_eq_zero_iff.mp hlen
